@@ -95,10 +95,21 @@ def exh5(ctx: Ctx) -> List[Ob]:
     obs.append(ctx.ob("EXH-5", ["C09", "C02"], g, "`data in tree` is find_first(data) found", None, ok, "" if ok else "containment must agree with lookup"))
     for q in ("Tree.find_all", "Tree.find_first"):
         h = m.func(q)
-        conv = find("data_id = self.calc_data_id(data)", h.node)
-        ok = len(conv) == 1 and any(pol and match("data is None", e) is not None for e, pol in [(e_, not p_) for e_, p_ in path_conds(ctx, h, conv[0][0])])
-        obs.append(ctx.ob("EXH-5", ["C02", "C09"], h, f"{q}: data is converted with calc_data_id before the index is read", None, ok, "" if ok else "lookup by data must use the tree's id function"))
-        gets = find("self._nodes_by_data_id.get(data_id)", h.node) + find("self._nodes_by_data_id[data_id]", h.node)
+        # the key the index is read with (the data_id parameter itself, or a local that holds the effective id)
+        kreads = [(n_, e_["$k"]) for n_, e_ in find("self._nodes_by_data_id.get($k)", h.node) + find("self._nodes_by_data_id[$k]", h.node)]
+        kname = kreads[0][1] if kreads else "data_id"
+        conv = find(f"{kname} = self.calc_data_id(data)", h.node)
+        anyconv = [c_ for c_ in ast.walk(h.node) if isinstance(c_, ast.Call) and norm(c_.func).endswith("calc_data_id")]
+        if len(conv) == 1 and any(pol and match("data is None", e) is not None for e, pol in [(e_, not p_) for e_, p_ in path_conds(ctx, h, conv[0][0])]):
+            ok = True
+        elif not anyconv:
+            ok = False
+        elif kreads and any(norm(v_) == "self.calc_data_id(data)" for v_ in reaching_values(ctx, h, kreads[0][0], ast.Name(id=kname, ctx=ast.Load()))):
+            ok = True
+        else:
+            ok = None
+        obs.append(ctx.tri("EXH-5", ["C02", "C09"], h, f"{q}: data is converted with calc_data_id before the index is read", None, ok, "lookup by data must use the tree's id function"))
+        gets = [n_ for n_, _k in kreads]
         anyidx = [x for x in ast.walk(h.node) if isinstance(x, ast.Attribute) and x.attr == "_nodes_by_data_id"]
         obs.append(ctx.tri("EXH-5", ["C02", "C09"], h, f"{q}: reads the clone list of data_id", None, True if gets else (None if anyidx else False), "index not consulted"))
     h = m.func("Tree.find_first")
@@ -106,12 +117,20 @@ def exh5(ctx: Ctx) -> List[Ob]:
     ok = bool(find_cases(hc, "return", "self._node_by_id.get(node_id)"))
     obs.append(ctx.ob("EXH-5", ["C02", "C09"], h, "find_first(node_id=) reads the id map", None, ok, ""))
     firsts = [(c, e) for c, e in find_cases(hc, "return", "$$r[0]", [("$$r", True)])
-              if all(match("self._nodes_by_data_id.get(data_id)", v) is not None for v in reaching_values(ctx, h, c.stmt, e["$$r"]))]
-    # every other return under `data_id is not None` hands back nothing
+              if all(match("self._nodes_by_data_id.get($k)", v) is not None for v in reaching_values(ctx, h, c.stmt, e["$$r"]))]
+    kn_ = "data_id"
+    for c, e in firsts:
+        for v in reaching_values(ctx, h, c.stmt, e["$$r"]):
+            mk_ = match("self._nodes_by_data_id.get($k)", v)
+            if mk_:
+                kn_ = mk_["$k"]
+    # every other return under `<key> is not None` hands back nothing
     other = [c for c in hc if c.value is not None and not any(c is x for x, _ in firsts)
-             and any((not pol) and match("data_id is None", e) is not None for e, pol in c.conds) and not (isinstance(c.value, ast.Constant) and c.value.value is None)]
+             and any((not pol) and match(f"{kn_} is None", e) is not None for e, pol in c.conds) and not (isinstance(c.value, ast.Constant) and c.value.value is None)]
     ok = len(firsts) == 1 and not other
-    obs.append(ctx.ob("EXH-5", ["C02", "C09"], h, "find_first(data/data_id) returns the first clone or None", None, ok, ""))
+    if not ok and not firsts and not any(isinstance(x, ast.Subscript) and norm(x.slice) not in ("0",) and isinstance(x.ctx, ast.Load) and "res" in norm(x.value) for x in ast.walk(h.node)):
+        ok = None
+    obs.append(ctx.tri("EXH-5", ["C02", "C09"], h, "find_first(data/data_id) returns the first clone or None", None, ok, ""))
     return obs
 
 
@@ -163,7 +182,9 @@ def dataid_def(ctx: Ctx) -> List[Ob]:
     for q in ("Node.is_clone", "Node.get_clones"):
         h = m.func(q)
         subs = find("self._tree._nodes_by_data_id[self._data_id]", h.node) + find("self._tree._nodes_by_data_id.get(self._data_id)", h.node)
-        obs.append(ctx.ob("DATAID-DEF", ["C02"], h, f"{q} reads the clone list of the node's own data_id", None, len(subs) == 1, "" if subs else "clone queries must use the node's data_id"))
+        # (one read, or one per branch of the canonical form; a read under another key is the violation)
+        other_keys = [norm(x.slice) for x in ast.walk(h.node) if isinstance(x, ast.Subscript) and norm(x.value).endswith("_nodes_by_data_id") and norm(x.slice) != "self._data_id"]
+        obs.append(ctx.ob("DATAID-DEF", ["C02"], h, f"{q} reads the clone list of the node's own data_id", None, len(subs) >= 1 and not other_keys, "" if subs and not other_keys else "clone queries must use the node's data_id"))
     h = m.func("Node.is_clone")
     ok = has("len($$x) > 1", h.node) or has("len($$x) >= 2", h.node)
     obs.append(ctx.ob("DATAID-DEF", ["C02"], h, "is_clone: more than one node under the id", None, ok, "" if ok else "a clone is a node whose data is referenced at least twice"))
